@@ -49,6 +49,14 @@ inductive V where
 /-- exponent field all ones ⇔ NaN or ±inf -/
 def isFiniteBits (bits : UInt64) : Bool := (bits.toNat / 2 ^ 52) % 2048 != 2047
 
+/-- `emit::Kind` (/repo/src/kind.rs:41-60) -/
+inductive Kind where
+  | span | metric
+  deriving DecidableEq, Inhabited
+
+def Kind.display : Kind → String
+  | .span => "span" | .metric => "metric"
+
 /-! ### Simple captured values (primitives, strings, Display/Debug/error captures, typed well-known values) -/
 
 inductive Simple where
@@ -69,6 +77,8 @@ inductive Simple where
   | tid (n : Nat)
   /-- a captured `emit::SpanId` (non-zero u64) -/
   | sid (n : Nat)
+  /-- a captured `emit::Kind` -/
+  | kind (k : Kind)
   deriving Inhabited
 
 /-- A property value: a simple capture, or a value captured through `sval` together with the text its
@@ -105,6 +115,7 @@ def Simple.display : Simple → String
   | .lvl l => l.display
   | .tid n => hexString 32 n
   | .sid n => hexString 16 n
+  | .kind k => k.display
 
 /-- The sval stream of a simple value (value-bag-1.14.1/src/internal/sval/v2.rs:140-215): integers through
     `u64/i64/u128/i128`, Display/Debug captures and errors as text (an error streams only its own message),
@@ -121,6 +132,7 @@ def Simple.image : Simple → V
   | .lvl l => .text l.display
   | .tid n => .text (hexString 32 n)
   | .sid n => .text (hexString 16 n)
+  | .kind k => .text k.display
 
 def PV.image : PV → V
   | .simple s => s.image
@@ -136,10 +148,12 @@ def PV.error? : PV → Option (String × List String)
   | _ => none
 
 /-- integer view used by `u128::from_value` / `u64::from_value` (value-bag cast: any integer capture;
-    `Option::Some` wrappers are transparent for the visitor) -/
+    `Option::Some` and newtype-variant wrappers are transparent for the visitor, whose `tagged_*` / `enum_*`
+    are the no-op defaults) -/
 def V.asInt? : V → Option Int
   | .int i => Option.some i
   | .some v => v.asInt?
+  | .nvar _ v => v.asInt?
   | _ => Option.none
 
 def PV.asInt? : PV → Option Int
@@ -157,6 +171,20 @@ def PV.str? : PV → Option String
 def PV.castLevel : PV → Option Level
   | .simple (.lvl l) => some l
   | pv => parseLevel pv.display
+
+def asciiLower (c : Char) : Char := if 'A' ≤ c ∧ c ≤ 'Z' then Char.ofNat (c.toNat + 32) else c
+
+/-- `FromStr for Kind` (kind.rs:97-113): trim, then compare ignoring ASCII case -/
+def parseKind (s : String) : Option Kind :=
+  let t := (EmitModel.Level.trim s.toList).map asciiLower
+  if t = "span".toList then some .span
+  else if t = "metric".toList then some .metric
+  else none
+
+/-- `FromValue for Kind` (kind.rs:88-95): downcast, else parse the text / Display text -/
+def PV.castKind : PV → Option Kind
+  | .simple (.kind k) => some k
+  | pv => parseKind pv.display
 
 def hexVal (c : Char) : Option Nat :=
   if '0' ≤ c ∧ c ≤ '9' then some (c.toNat - 48)
